@@ -17,19 +17,19 @@ func (p *watPrinter) printImport() error {
 		switch importSpec.ObjKind {
 		case token.GLOBAL:
 			fmt.Fprint(p.w, p.indent)
-			fmt.Fprintf(p.w, "(import %q %q", importSpec.ObjModule, importSpec.ObjName)
+			fmt.Fprintf(p.w, "(import %s %s", watPrinter_quote(importSpec.ObjModule), watPrinter_quote(importSpec.ObjName))
 			p.printImport_global(importSpec)
 			fmt.Fprint(p.w, ")\n")
 
 		case token.FUNC:
 			fmt.Fprint(p.w, p.indent)
-			fmt.Fprintf(p.w, "(import %q %q", importSpec.ObjModule, importSpec.ObjName)
+			fmt.Fprintf(p.w, "(import %s %s", watPrinter_quote(importSpec.ObjModule), watPrinter_quote(importSpec.ObjName))
 			p.printImport_func(importSpec)
 			fmt.Fprint(p.w, ")\n")
 
 		case token.MEMORY:
 			fmt.Fprint(p.w, p.indent)
-			fmt.Fprintf(p.w, "(import %q %q", importSpec.ObjModule, importSpec.ObjName)
+			fmt.Fprintf(p.w, "(import %s %s", watPrinter_quote(importSpec.ObjModule), watPrinter_quote(importSpec.ObjName))
 			fmt.Fprintf(p.w, " (memory")
 			if s := importSpec.Memory.Name; s != "" {
 				fmt.Fprint(p.w, " $"+s)
@@ -66,7 +66,11 @@ func (p *watPrinter) printImport_func(importSpec *ast.ImportSpec) {
 	fnType := importSpec.FuncType
 	if len(fnType.Params) > 0 {
 		for _, x := range fnType.Params {
-			fmt.Fprintf(p.w, " (param %v)", x.Type)
+			if x.Name != "" {
+				fmt.Fprintf(p.w, " (param %s %v)", watPrinter_identOrIndex(x.Name), x.Type)
+			} else {
+				fmt.Fprintf(p.w, " (param %v)", x.Type)
+			}
 		}
 	}
 	if len(fnType.Results) > 0 {
